@@ -1,13 +1,305 @@
-//! C03 — not implemented yet.
+//! C03 — filter chains and error fan-out: scripted `Filter`s and `Append`s that write every call into
+//! one shared event log, the real `ThresholdFilter`, `Logger::new_with_err_handler`.
+//! case: nodeLevel TAB recordLevel TAB attached TAB appenders   (see lean/Driver/C03.lean)
+use crate::proto::*;
 use crate::rng::Rng;
+use log::{Level, LevelFilter, Log, Record};
+use log4rs::append::Append;
+use log4rs::config::{Appender, Config, Root};
+use log4rs::filter::threshold::ThresholdFilter;
+use log4rs::filter::{Filter, Response};
+use std::sync::{Arc, Mutex};
 
-pub fn gen(_rng: &mut Rng, _n: usize, _thorough: bool, _emit: &mut dyn FnMut(String)) {}
+type EventLog = Arc<Mutex<Vec<String>>>;
 
-pub fn exec(_fields: &[&str]) -> String {
-    "unimplemented".to_owned()
+#[derive(Clone, Copy, Debug, PartialEq)]
+enum Script {
+    Accept,
+    Neutral,
+    Reject,
+    Threshold(u64),
 }
 
-/// child-process entry point (`verif-harness child c03 …`), for checks that need process-global state
+#[derive(Debug)]
+struct ScriptedFilter {
+    app: usize,
+    idx: usize,
+    answer: Script,
+    log: EventLog,
+}
+
+impl Filter for ScriptedFilter {
+    fn filter(&self, _: &Record) -> Response {
+        self.log.lock().unwrap().push(format!("f{}.{}", self.app, self.idx));
+        match self.answer {
+            Script::Accept => Response::Accept,
+            Script::Neutral => Response::Neutral,
+            Script::Reject => Response::Reject,
+            Script::Threshold(_) => unreachable!(),
+        }
+    }
+}
+
+/// the real threshold filter, with the call recorded
+#[derive(Debug)]
+struct CountingThreshold {
+    app: usize,
+    idx: usize,
+    inner: ThresholdFilter,
+    log: EventLog,
+}
+
+impl Filter for CountingThreshold {
+    fn filter(&self, r: &Record) -> Response {
+        self.log.lock().unwrap().push(format!("f{}.{}", self.app, self.idx));
+        self.inner.filter(r)
+    }
+}
+
+#[derive(Debug)]
+struct ScriptedAppend {
+    app: usize,
+    fails: bool,
+    log: EventLog,
+}
+
+impl Append for ScriptedAppend {
+    fn append(&self, _: &Record) -> anyhow::Result<()> {
+        self.log.lock().unwrap().push(format!("a{}", self.app));
+        if self.fails {
+            Err(anyhow::anyhow!("fail:{}", self.app))
+        } else {
+            Ok(())
+        }
+    }
+    fn flush(&self) {}
+}
+
+fn level_filter(n: u64) -> Option<LevelFilter> {
+    Some(match n {
+        0 => LevelFilter::Off,
+        1 => LevelFilter::Error,
+        2 => LevelFilter::Warn,
+        3 => LevelFilter::Info,
+        4 => LevelFilter::Debug,
+        5 => LevelFilter::Trace,
+        _ => return None,
+    })
+}
+
+fn level(n: u64) -> Option<Level> {
+    Some(match n {
+        1 => Level::Error,
+        2 => Level::Warn,
+        3 => Level::Info,
+        4 => Level::Debug,
+        5 => Level::Trace,
+        _ => return None,
+    })
+}
+
+fn dec_filter(s: &str) -> Option<Script> {
+    Some(match s {
+        "A" => Script::Accept,
+        "N" => Script::Neutral,
+        "R" => Script::Reject,
+        _ => {
+            let k: u64 = s.strip_prefix('T')?.parse().ok()?;
+            level_filter(k)?;
+            Script::Threshold(k)
+        }
+    })
+}
+
+pub fn exec(fields: &[&str]) -> String {
+    if fields.len() != 4 {
+        return "bad-case".to_owned();
+    }
+    let parsed = (|| {
+        let node_level = level_filter(fields[0].parse().ok()?)?;
+        let rec_level = level(fields[1].parse().ok()?)?;
+        let attached: Vec<usize> = dec_list(',', fields[2]).iter().map(|x| x.parse().ok()).collect::<Option<_>>()?;
+        let mut table: Vec<(Vec<Script>, bool)> = vec![];
+        for a in dec_list(',', fields[3]) {
+            let p: Vec<&str> = a.split(';').collect();
+            if p.len() != 2 {
+                return None;
+            }
+            let chain: Vec<Script> = dec_list('|', p[0]).iter().map(|f| dec_filter(f)).collect::<Option<_>>()?;
+            let fails = match p[1] {
+                "ok" => false,
+                "fail" => true,
+                _ => return None,
+            };
+            table.push((chain, fails));
+        }
+        if attached.iter().any(|i| *i >= table.len()) {
+            return None;
+        }
+        Some((node_level, rec_level, attached, table))
+    })();
+    let (node_level, rec_level, attached, table) = match parsed {
+        Some(p) => p,
+        None => return "bad-case".to_owned(),
+    };
+    let events: EventLog = Arc::new(Mutex::new(vec![]));
+    let ev = events.clone();
+    let r = guarded(std::panic::AssertUnwindSafe(move || {
+        let mut b = Config::builder();
+        for (i, (chain, fails)) in table.iter().enumerate() {
+            let mut ab = Appender::builder();
+            for (j, f) in chain.iter().enumerate() {
+                let boxed: Box<dyn Filter> = match f {
+                    Script::Threshold(k) => Box::new(CountingThreshold {
+                        app: i,
+                        idx: j,
+                        inner: ThresholdFilter::new(level_filter(*k).unwrap()),
+                        log: ev.clone(),
+                    }),
+                    other => Box::new(ScriptedFilter { app: i, idx: j, answer: *other, log: ev.clone() }),
+                };
+                ab = ab.filter(boxed);
+            }
+            b = b.appender(ab.build(i.to_string(), Box::new(ScriptedAppend { app: i, fails: *fails, log: ev.clone() })));
+        }
+        let root = Root::builder().appenders(attached.iter().map(|i| i.to_string())).build(node_level);
+        let config = b.build(root).expect("config of the case is well-formed");
+        let hlog = ev.clone();
+        let logger = log4rs::Logger::new_with_err_handler(
+            config,
+            Box::new(move |e: &anyhow::Error| {
+                let msg = e.to_string();
+                let who = msg.strip_prefix("fail:").unwrap_or("?").to_owned();
+                hlog.lock().unwrap().push(format!("h{}", who));
+            }),
+        );
+        logger.log(&Record::builder().level(rec_level).target("some::target").args(format_args!("m")).build());
+    }));
+    match r {
+        Ok(()) => enc_list(",", &events.lock().unwrap()),
+        Err(_) => "PANIC".to_owned(),
+    }
+}
+
+// ------------------------------------------------------------------------------------------------
+
+fn chain_str(chain: &[&str]) -> String {
+    if chain.is_empty() {
+        "~".to_owned()
+    } else {
+        chain.join("|")
+    }
+}
+
+fn all_chains(max_len: usize) -> Vec<Vec<&'static str>> {
+    let mut out: Vec<Vec<&'static str>> = vec![vec![]];
+    let mut layer: Vec<Vec<&'static str>> = vec![vec![]];
+    for _ in 0..max_len {
+        let mut next = vec![];
+        for c in &layer {
+            for r in ["A", "N", "R"] {
+                let mut d = c.clone();
+                d.push(r);
+                next.push(d);
+            }
+        }
+        out.extend(next.iter().cloned());
+        layer = next;
+    }
+    out
+}
+
+pub fn gen(rng: &mut Rng, n: usize, thorough: bool, emit: &mut dyn FnMut(String)) {
+    // 1. the real threshold filter: all 6 thresholds × 5 record levels, alone and behind/before others
+    for thr in 0..=5 {
+        for lvl in 1..=5 {
+            emit(format!("5\t{}\t0\tT{};ok", lvl, thr));
+            emit(format!("5\t{}\t0,1\tN|T{}|A;fail,T{}|R;ok", lvl, thr, thr));
+        }
+    }
+    // 2. every chain of length ≤ 5 over {A,N,R}, for a succeeding and a failing appender, with a
+    //    healthy neighbour on each side
+    let chains = all_chains(5);
+    for c in &chains {
+        for res in ["ok", "fail"] {
+            emit(format!("5\t3\t0\t{};{}", chain_str(c), res));
+            emit(format!("5\t3\t0,1,2\tN;ok,{};{},~;ok", chain_str(c), res));
+        }
+    }
+    // 3. every assignment of ≤ 4 appenders × {ok,fail} × chain outcome (accepting, rejecting,
+    //    all-neutral, empty chain)
+    let outcomes = ["N|A|R", "N|R|A", "N|N", "~"];
+    let max_apps = 4;
+    for k in 1..=max_apps {
+        let combos = (outcomes.len() * 2usize).pow(k as u32);
+        for code in 0..combos {
+            let mut c = code;
+            let mut apps = vec![];
+            for _ in 0..k {
+                let o = c % (outcomes.len() * 2);
+                c /= outcomes.len() * 2;
+                apps.push(format!("{};{}", outcomes[o / 2], if o % 2 == 0 { "ok" } else { "fail" }));
+            }
+            let attached: Vec<String> = (0..k).map(|i| i.to_string()).collect();
+            emit(format!("5\t2\t{}\t{}", attached.join(","), apps.join(",")));
+        }
+    }
+    // 4. node level × record level gate around a failing appender
+    for nl in 0..=5 {
+        for lvl in 1..=5 {
+            emit(format!("{}\t{}\t0,1\tN;fail,A;ok", nl, lvl));
+        }
+    }
+    // 5. random: long chains, thresholds mixed in, repeated and permuted attachments
+    for _ in 0..n {
+        let n_apps = rng.range(1, if thorough { 8 } else { 6 }) as usize;
+        let mut apps = vec![];
+        for _ in 0..n_apps {
+            let len = match rng.below(10) {
+                0 => 0,
+                1..=6 => rng.range(1, 6),
+                7..=8 => rng.range(7, 20),
+                _ => rng.range(21, 40),
+            };
+            let neutral_bias = rng.range(1, 9);
+            let chain: Vec<String> = (0..len)
+                .map(|_| {
+                    if rng.below(10) < neutral_bias {
+                        if rng.chance(1, 4) {
+                            format!("T{}", rng.range(0, 5))
+                        } else {
+                            "N".to_owned()
+                        }
+                    } else {
+                        match rng.below(5) {
+                            0..=1 => "A".to_owned(),
+                            2..=3 => "R".to_owned(),
+                            _ => format!("T{}", rng.range(0, 5)),
+                        }
+                    }
+                })
+                .collect();
+            let cs: Vec<&str> = chain.iter().map(|s| s.as_str()).collect();
+            apps.push(format!("{};{}", chain_str(&cs), if rng.chance(2, 5) { "fail" } else { "ok" }));
+        }
+        let attached: Vec<String> = match rng.below(4) {
+            0 => (0..n_apps).map(|i| i.to_string()).collect(),
+            1 => {
+                let mut v: Vec<usize> = (0..n_apps).collect();
+                rng.shuffle(&mut v);
+                v.iter().map(|i| i.to_string()).collect()
+            }
+            _ => {
+                let k = rng.range(0, n_apps as u64 + 2);
+                (0..k).map(|_| rng.below(n_apps as u64).to_string()).collect()
+            }
+        };
+        let nl = if rng.chance(4, 5) { 5 } else { rng.range(0, 5) };
+        emit(format!("{}\t{}\t{}\t{}", nl, rng.range(1, 5), enc_list(",", &attached), apps.join(",")));
+    }
+}
+
+/// child-process entry point (unused by this property)
 pub fn child(_args: &[String]) -> i32 {
     2
 }
